@@ -54,9 +54,14 @@ def check(tr):
             rs = expect_first.pop(t)
             newest = max(r["run"] for r in tr.runs_of(t) if r["s0"] <= rs)
             if run != newest or idx != 0:
+                # written in the window between the start of the poll that led to the pause and the pause itself?
+                dd = decision_seq.get((t, run))
+                polls = [f["sc"] for f in tr.fetches if dd is not None and f["s"] < dd]
+                race = bool(run < newest and polls and rep["s"] > polls[-1])
                 out.append(V("C02", "R4.stale_after_resume", tr,
-                             "trial %s: first result after resume is report %d of run %d (expected report 0 of run %d)" % (
-                                 t, idx, run, newest), e["s0"], backend=tr.hist.final.get("backend_class", tr.world)))
+                             "trial %s: first result after resume is report %d of run %d (expected report 0 of run %d)%s" % (
+                                 t, idx, run, newest, "" if race else "; it was written before the poll that led to the pause"),
+                             e["s0"], backend=tr.hist.final.get("backend_class", tr.world), race=race))
         lst = delivered.setdefault((t, run), [])
         if idx != len(lst) and not any(o["rule"] == "R1.not_prefix" and o["keys"].get("trial") == t for o in out):
             out.append(V("C02", "R1.not_prefix", tr, "trial %s run %d: report %d delivered after %s (not a gap-free prefix)" % (
